@@ -47,6 +47,19 @@ def _check_one(ctx, ns, spec, src, lines, jobs, cov):
         rec["tables"][e] = row
         assert set(tab.keys()) <= set(keys)
     b.obj._SyncObj__onSetCodeVersion(0)
+    # which versions does the node accept? (real setCodeVersion at enabled version 0: top version of the code, top + 1)
+    top = max([v for _, _, v in L.decls_of(spec)] + [0])
+    rec["top"] = top
+    rec["top_only_on_consumer"] = top > max([v for o, _, v in L.decls_of(spec) if o == 0] + [0])
+    rec["accept"] = {}
+    q = b.obj._SyncObj__commandsQueue
+    for v in (top, top + 1):
+        try:
+            b.obj.setCodeVersion(v)
+            q.get_nowait()
+            rec["accept"][v] = True
+        except Exception as e:
+            rec["accept"][v] = str(e)[:120]
     lines.append(L.jdump({"op": "ids", "cls": L.cls_json(spec)}))
     jobs.append(("ids", rec))
     for e in vers:
@@ -75,6 +88,76 @@ def _monitor_resolution(spec, rec, violations):
                     "what": "call %s on object %d with enabled version %d resolves to %r, newest version <= enabled is %r"
                             % (orig, o, e, got, want),
                     "replay": {"kind": "ids", "spec": spec, "enabled": e, "obj": o, "orig": orig}})
+
+
+def _monitor_support(spec, rec, violations, cov):
+    """Property statement: a node supports every version some replicated method of the object OR of a consumer
+    implements - a request to enable it is accepted; a version no method implements is rejected."""
+    top = rec["top"]
+    cov["top_only_on_consumer" if rec["top_only_on_consumer"] else "top_on_object"] += 1
+    if rec["accept"][top] is not True and len(violations) < 3:
+        violations.append({
+            "signature": "syncobj.setCodeVersion:supported-version-rejected",
+            "what": "setCodeVersion(%d) refused (%s) although a replicated method of %s implements version %d (node reports self version %r)"
+                    % (top, rec["accept"][top], "a consumer only" if rec["top_only_on_consumer"] else "the object", top, rec["selfVer"]),
+            "replay": {"kind": "ids", "spec": spec, "enabled": 0, "obj": 0, "orig": ""}})
+    if rec["accept"][top + 1] is True and len(violations) < 3:
+        violations.append({
+            "signature": "syncobj.setCodeVersion:unsupported-or-lower-version-accepted",
+            "what": "setCodeVersion(%d) accepted although no replicated method implements a version above %d" % (top + 1, top),
+            "replay": {"kind": "ids", "spec": spec, "enabled": 0, "obj": 0, "orig": ""}})
+
+
+def _battery_case(ns, violations, cov):
+    """The real `batteries.ReplList` (its `__setitem__` is the only ver=1 method) on a plain SyncObj without own versioned
+    methods: version 1 is supported, setCodeVersion(1) is accepted, the VERSION entry is applied, `lst[i] = x` then
+    goes out with the ver=1 implementation."""
+    from pysyncobj import SyncObj, SyncObjConf
+    from pysyncobj.batteries import ReplList
+    lst = ReplList()
+    top = max(getattr(getattr(lst, m), "ver", 0) for m in dir(lst) if callable(getattr(lst, m))
+              and getattr(getattr(lst, m), "replicated", False))
+    conf = SyncObjConf(autoTick=False, useFork=False)
+    obj = SyncObj(ns["Node"]("a"), [], conf=conf, consumers=[lst], transportClass=ns["DummyTransport"])
+    problems = []
+    try:
+        try:
+            obj.setCodeVersion(top)
+            obj._SyncObj__commandsQueue.get_nowait()
+        except Exception as e:
+            problems.append("setCodeVersion(%d) refused: %s" % (top, str(e)[:100]))
+        lg = obj._SyncObj__raftLog
+        lg.add(b"\x03" + ns["pickle"].dumps(top), 2, 1)
+        obj._SyncObj__raftCommitIndex = 2
+        obj._SyncObj__applyLogEntries()
+        if obj._SyncObj__raftLastApplied != 2 or obj.getCodeVersion() != top:
+            problems.append("VERSION %d entry not applied: lastApplied=%d, getCodeVersion()=%d"
+                            % (top, obj._SyncObj__raftLastApplied, obj.getCodeVersion()))
+        else:
+            got = []
+            obj._applyCommand = lambda command, callback, commandType=None: got.append(command)
+            try:
+                lst.__setitem__(0, 5, callback=lambda *a: None)
+            except Exception as e:
+                problems.append("lst[0] = 5 raised %s" % type(e).__name__)
+            finally:
+                del obj._applyCommand
+            if got:
+                cmd = ns["pickle"].loads(got[0])
+                fid = cmd[0] if isinstance(cmd, tuple) else cmd
+                if obj._idToMethod[fid].ver != top:
+                    problems.append("lst[0] = 5 goes out with version %d of __setitem__" % obj._idToMethod[fid].ver)
+        cov["battery_repllist_top_%d" % top] += 1
+    finally:
+        try:
+            obj._doDestroy()
+            obj._poller.close() if hasattr(obj._poller, "close") else None
+        except Exception:
+            pass
+    if problems and len(violations) < 3:
+        violations.append({"signature": "syncobj.setCodeVersion:supported-version-rejected",
+                           "what": "plain SyncObj with a batteries.ReplList (ver=%d method on the consumer only): %s" % (top, "; ".join(problems)),
+                           "replay": {"kind": "battery"}})
 
 
 def _monitor_pair(old_rec, new_rec, hyp, violations, cov):
@@ -140,6 +223,7 @@ def run(ctx):
         b, rec = _check_one(ctx, ns, spec, src, lines, jobs, cov)
         built.append(b)
         _monitor_resolution(spec, rec, violations)
+        _monitor_support(spec, rec, violations, cov)
         distinct.add(hashlib.sha1(L.jdump(L.cls_json(spec)).encode()).hexdigest())
         cov["objs_%d" % len(spec["objs"])] += 1
         cov["methods_%s" % min(len(L.decls_of(spec)), 9)] += 1
@@ -152,6 +236,8 @@ def run(ctx):
         return rec
 
     cases = 0
+    _battery_case(ns, violations, cov)
+    cases += 1
     for old, new in _directed_specs():
         ro = one(old)
         cases += 1
@@ -220,7 +306,8 @@ def run(ctx):
     res = {"cases": cases, "distinct": len(distinct), "coverage": dict(cov), "samples": samples,
            "disagreements": disagreements[:3], "violations": violations[:3]}
     floors = ["pair_hyp", "pair_nohyp", "pair_stable", "resolved", "keyerror", "objs_1", "objs_2", "objs_3",
-              "ids_equal", "table_equal", "pair_new_version_of_old_method"]
+              "ids_equal", "table_equal", "pair_new_version_of_old_method", "top_only_on_consumer", "top_on_object",
+              "battery_repllist_top_1"]
     missed = [f for f in floors if not cov.get(f)]
     if missed and not disagreements and not violations:
         res["inconclusive"] = "coverage floor missed: %s" % missed
@@ -242,9 +329,12 @@ def replay(ctx, violation):
             L.destroy(b)
             recs.append(rec)
         _monitor_pair(recs[0], recs[1], True, v, cov)
+    elif rp.get("kind") == "battery":
+        _battery_case(ns, v, cov)
     elif rp.get("kind") == "ids":
         spec = {"objs": [[tuple(d) for d in o] for o in rp["spec"]["objs"]]}
         b, rec = _check_one(ctx, ns, spec, L.source_of(spec, rng), [], [], cov)
         L.destroy(b)
         _monitor_resolution(spec, rec, v)
+        _monitor_support(spec, rec, v, cov)
     return {"violated": bool(v), "violations": v}
